@@ -364,7 +364,6 @@ pub fn shard(tier: Tier, i: usize, n: usize) -> i32 {
         // not needed for correctness here (no expectation about free ports); carry on in the shared namespace
     }
     let cases = all_cases(tier);
-    let rt = e4::runtime(2);
     let t0 = Instant::now();
     let budget = Duration::from_secs(match tier { Tier::Quick => 120, Tier::Thorough => 1500 });
     let mut failing = 0;
@@ -378,7 +377,19 @@ pub fn shard(tier: Tier, i: usize, n: usize) -> i32 {
             skipped += 1;
             continue;
         }
-        let viol = rt.block_on(run_case(c));
+        let c2 = c.clone();
+        let Some(viol) = e4::block_on_deadline(2, e4::CASE_DEADLINE, move || async move { run_case(&c2).await }) else {
+            // a runtime thread is blocked for ever: report it, give up the rest of this shard and leave (exiting is
+            // what gets rid of the stuck thread)
+            let what = format!("bound {} over {}, {} raw client(s) that send {} handshake bytes and then {}", c.ty.name(), c.tr.name(), c.bad_clients, c.offset, BEHAVIOURS[c.behaviour]);
+            println!("{}", json!({"case": k, "findings": [[format!("runtime-hung/{}", BEHAVIOURS[c.behaviour]), format!("{}: the case did not come back within {} s although every wait in it has a {} s horizon: a thread of the socket's runtime is blocked for ever (no timer fires any more), so nothing else on that runtime - other handshakes, established traffic - makes progress", what, e4::CASE_DEADLINE.as_secs(), e4::HORIZON.as_secs())]]}));
+            let rest = cases.iter().enumerate().filter(|(j, _)| j % n == i && *j > k).count() as u64;
+            println!("{}", json!({"skipped": rest + skipped, "after_failures": failing + 1, "budget_exhausted": false}));
+            use std::io::Write;
+            let _ = std::io::stdout().flush();
+            e4::cleanup_ipc_dir();
+            std::process::exit(0);
+        };
         if !viol.is_empty() {
             failing += 1;
         }
@@ -405,8 +416,8 @@ pub fn run(tier: Tier, replay: Option<String>) -> i32 {
             bad_clients: r["bad_clients"].as_u64().unwrap() as usize,
             extra_goods: r["extra_goods"].as_u64().unwrap_or(0) as usize,
         };
-        let rt = e4::runtime(2);
-        let viol = rt.block_on(run_case(&c));
+        let c2 = c.clone();
+        let viol = e4::block_on_deadline(2, e4::CASE_DEADLINE, move || async move { run_case(&c2).await }).unwrap_or_else(|| vec![("runtime-hung".to_string(), "the case did not come back: a runtime thread is blocked for ever".to_string())]);
         e4::cleanup_ipc_dir();
         for (cl, m) in &viol {
             println!("replay: VIOLATION {}: {}", cl, m);
